@@ -91,6 +91,10 @@ func (g *gen) oid() string {
 		// arcs around what an int can hold: the largest fits, the next ones must be refused (not wrapped, not dropped)
 		return fmt.Sprintf("1.2.3.%s.5", g.pick("9223372036854775807", "9223372036854775808", "18446744073709551615", "18446744073709551616", "4294967296", "2147483648"))
 	}
+	if g.chance(6) {
+		// arcs written with leading zeros are decimal numbers like any other (010 is ten, 08 is eight)
+		return fmt.Sprintf("1.2.%s.%s", g.pick("010", "0064", "08", "019", "007", "00"), g.pick("4", "0017", "09"))
+	}
 	switch g.r.Intn(4) {
 	case 0:
 		return fmt.Sprintf("1.2.%d.%d", g.r.Intn(300), g.r.Int63n(1<<40))
@@ -110,7 +114,8 @@ func (g *gen) generalName(kinds ...string) [2]string {
 	// values that are the zero value of their Go type (all-zero address, empty text) are names like any other
 	if g.chance(12) {
 		if t == "ip" {
-			return [2]string{t, g.pick("0.0.0.0", "0.0.0.1", "1.0.0.0", "255.255.255.255")}
+			// zero-padded octets are decimal as well
+			return [2]string{t, g.pick("0.0.0.0", "0.0.0.1", "1.0.0.0", "255.255.255.255", "192.168.010.001", "010.008.019.077", "000.001.002.003")}
 		}
 		if g.chance(40) {
 			return [2]string{t, ""}
